@@ -78,6 +78,35 @@ def unpackable(t):
   return some if some else alts
 
 
+def _refine_none(test, e_true, e_false):
+  """`x is None` / `x is not None` / `x` / `not x`: the branch where x is not None loses x's literal-None alternative,
+  the other branch keeps only it."""
+  neg = False
+  t = test
+  while isinstance(t, ast.UnaryOp) and isinstance(t.op, ast.Not):
+    neg, t = not neg, t.operand
+  name = None
+  none_when_true = None
+  if isinstance(t, ast.Compare) and len(t.ops) == 1 and isinstance(t.left, ast.Name) and isinstance(t.comparators[0], ast.Constant) and \
+     t.comparators[0].value is None and isinstance(t.ops[0], (ast.Is, ast.IsNot, ast.Eq, ast.NotEq)):
+    name = t.left.id
+    none_when_true = isinstance(t.ops[0], (ast.Is, ast.Eq))
+  elif isinstance(t, ast.Name):
+    name = t.id
+    none_when_true = False
+  if name is None or name not in e_true:
+    return
+  if neg:
+    none_when_true = not none_when_true
+  cur = e_true[name]
+  alts = alternatives(cur)
+  if ('const', None) not in alts or len(alts) < 2:
+    return
+  some = either(*[a for a in alts if a != ('const', None)])
+  (e_true if none_when_true else e_false)[name] = ('const', None)
+  (e_false if none_when_true else e_true)[name] = some
+
+
 def _terminates(stmts):
   if not stmts:
     return False
@@ -311,6 +340,7 @@ class SymEval(object):
     if isinstance(s, ast.If):
       self._calls(s.test, env, fn, sink, out, depth, loops)
       e1, e2 = dict(env), dict(env)
+      _refine_none(s.test, e1, e2)
       self.run(s.body, e1, fn, sink, out, depth, loops)
       self.run(s.orelse, e2, fn, sink, out, depth, loops)
       t1, t2 = _terminates(s.body), _terminates(s.orelse)
